@@ -17,7 +17,7 @@ VERIF = extract.VERIF
 KNOWN = os.path.join(VERIF, 'known_findings.json')
 EVID = os.environ.get('OXA_EVIDENCE_DIR') or os.path.join(VERIF, 'evidence')
 
-PROPS = ['C01', 'C02', 'C03', 'C05', 'C06', 'C07', 'C08', 'C09', 'C10', 'C11', 'C12', 'C13', 'C14', 'C15', 'C16', 'C17', 'C18',
+PROPS = ['C01', 'C02', 'C03', 'C04', 'C05', 'C06', 'C07', 'C08', 'C09', 'C10', 'C11', 'C12', 'C13', 'C14', 'C15', 'C16', 'C17', 'C18',
          'C19', 'C20']
 
 
@@ -27,6 +27,29 @@ def load_known():
     with open(KNOWN) as fh:
         j = json.load(fh)
     return {f['key']: f for f in j.get('findings', [])}, j.get('fixed', [])
+
+
+def _collapse_copies(results):
+    """the decision-split view holds several copies of the same source site: reports that agree in rule, function, kind and
+    source location are one report; ordinals are renumbered so that keys stay comparable with the recorded findings"""
+    for r in results:
+        seen = set()
+        kept = []
+        for v in r.violations:
+            k = (v.rule, v.fn, v.what, v.loc, v.msg)
+            if k in seen:
+                continue
+            seen.add(k)
+            kept.append(v)
+        counters = {}
+        ordered = {}
+        for v in kept:
+            ordered.setdefault((v.rule, v.fn, v.what), []).append(v)
+        for grp in ordered.values():
+            if len({v.ordinal for v in grp}) != len(grp) or len(grp) > 1:
+                for i, v in enumerate(sorted(grp, key=lambda x: x.ordinal)):
+                    v.ordinal = i
+        r.violations = kept
 
 
 def main(argv=None):
@@ -80,6 +103,8 @@ def main(argv=None):
                 except Exception:
                     traceback.print_exc()
                     results2 = None
+                if results2 is not None and split:
+                    _collapse_copies(results2)
                 if results2 is not None and not any(not (v.key in known0 and known0[v.key].get('property') == prop)
                                                     for r in results2 for v in r.violations):
                     n1 = sum(len(r.violations) for r in results)
